@@ -118,6 +118,7 @@ def c14(tier, seed):
     evs += renumber(c.drive("default", "bcrypt", n=6 if not thorough else 30, steps=4 if not thorough else 6,
                             cost=1 if not thorough else 3), 10_000_000)
     c.notes["tlc_generated_scenarios"] = n
+    c.samples.append({"tlc_generated_scenario": read_ndjson(scen_path)[min(5, n - 1)]})
     c.validate(evs, mod, cfg, "eks", what="eksblowfish state machine", cost=cost_conf("Blowfish"), shards=14)
     rule = ("call sequences over {expand(k1|k2), salted(s1|s2,k1|k2), encrypt}: all sequences up to the bound enumerated by TLC "
             "(Eks_MC) and a seeded subset replayed against the real code + seeded random sequences; the trace spec carries the full "
@@ -265,6 +266,7 @@ def c12(tier, seed):
     scen_path = os.path.join(c.work, "api-scenarios.ndjson")
     n = scen.extract(r.out, scen_path, limit=(4000 if thorough else 400), seed=seed)
     c.notes["tlc_generated_scenarios"] = n
+    c.samples.append({"tlc_generated_scenario": read_ndjson(scen_path)[min(7, n - 1)]})
     evs = []
     plan = [("default", "Aes128,Aes192,Aes256,Kuznyechik"), ("aes-detect-off", "Aes128,Aes256"), ("aes-soft", "Aes192"),
             ("kuz-soft", "Kuznyechik"), ("kuz-compact", "Kuznyechik")]
